@@ -22,6 +22,12 @@ def currentRecheck : Bool := Generated.EntityLocal.getOrAddRechecks
 theorem c07_creation_rechecks_under_lock :
     Generated.EntityLocal.getOrAddCreationLocked = true ∧ Generated.EntityLocal.getOrAddRechecks = true := by decide
 
+/-- every search of the feature list by type and role that `GetOrAddFeature` performs — the first lookup (through
+    `FeatureOfTypeAndRole` or however it is written) and the re-check — happens under a mutex of the entity: the
+    model's `lookup` is ONE event that sees a consistent list (added in the deepening round; holds as well if the
+    whole call is put under one lock hold) -/
+theorem c07_lookup_is_one_event : Generated.EntityLocal.getOrAddSearchesLocked = true := by decide
+
 /-- `NextFeatureId` is one critical section: the model's number generator hands out each number in one event
     (what `c07_ids_fresh` rests on) -/
 theorem c07_generator_is_one_event : Generated.EntityLocal.nextFeatureIdLocked = true := by decide
